@@ -4,7 +4,7 @@ Property theorems only (model and spec: KinModel/Response.lean; helper lemmas: K
 
 Full-strength statement (the goal shape):
     ∀ canon o i, (validateResponse canon reg o i).err = none ↔ Accept canon reg o i
-It is proved below as `accept_iff_partial` outside three decidable exclusion classes in which the code
+It is proved below as `accept_iff_partial` outside two decidable exclusion classes in which the code
 really deviates from the property text (each with a kernel-checked witness, replayed on the Go code):
   HdrDecodedNil     a present header whose decoding gives no value is validated as `null`
   HdrArrayNoItems   a present header whose schema is an array without `items` makes the decoder dereference nil
@@ -14,6 +14,8 @@ regression theorems (model = spec on them, inputs kept in corpus/C08):
                     `visit_asrep_iff` holds at full strength; `writeOnly_null_rejected*`
   HdrNotAsResponse  (F-C08-2, commit 35101a0) headers were visited without VisitAsResponse;
                     `header_writeOnly_rejected`, `header_required_writeOnly_absent_accepted`
+  EmptyMapStrict    (F-C08-3, commit c48114b) an empty responses map passed under IncludeResponseStatus;
+                    `empty_map_strict_rejected`; `undefined_status` no longer needs a non-empty map
 -/
 import KinModel.Lemmas.C08
 import KinModel.ResponseReg
@@ -336,7 +338,7 @@ theorem acceptB_iff (canon : String → String) (reg : List (String × String)) 
     · cases o.excludeBody <;> simp
 
 /-- **C08 main theorem.** Full strength: `(validateResponse canon reg o i).err = none ↔ Accept canon reg o i` for every
-response map, status, header set, content type, body, decoding outcome and option set. Proved outside the three
+response map, status, header set, content type, body, decoding outcome and option set. Proved outside the two
 exclusion classes (each has a witness below): the response passes exactly when it is skipped (HEAD, 301/304/307/308),
 or no entry is selected and strictness is off, or — against the entry selected by exact code, class pattern,
 default — every declared header other than Content-Type is present-and-valid or absent-and-optional, and
